@@ -248,13 +248,14 @@ structure LevelFacts (t : RawTree) (pl : Option Level) (cl : Level) : Prop where
     ∀ c ∈ kids, some (cl, c) ∈ parentNodeList t (some cl)
   disj : ∀ p ∈ parentNodeList t pl, ∀ p' ∈ parentNodeList t pl, p ≠ p' →
     ∀ c, c ∈ kidsD t p → c ∉ kidsD t p'
+  surj : ∀ c ∈ t.nodesAt cl, ∃ p ∈ parentNodeList t pl, c ∈ kidsD t p
 
 theorem levelOK_facts (t : RawTree) (pl : Option Level) (cl : Level)
     (h : levelOK t pl cl = true) : LevelFacts t pl cl := by
   simp only [levelOK, Bool.and_eq_true, List.all_eq_true, Bool.not_eq_true',
-    Bool.or_eq_true, beq_iff_eq] at h
-  obtain ⟨hnd, hps⟩ := h
-  refine ⟨nodup_parentNodeList t cl (hasDup_false_nodup _ hnd), ?_, ?_⟩
+    Bool.or_eq_true, beq_iff_eq, List.any_eq_true, List.contains_iff_mem] at h
+  obtain ⟨⟨hnd, hsurj⟩, hps⟩ := h
+  refine ⟨nodup_parentNodeList t cl (hasDup_false_nodup _ hnd), ?_, ?_, hsurj⟩
   · intro p hp
     have h1 := (hps p hp).1
     split at h1
@@ -696,7 +697,7 @@ theorem wfb_nodup_nodesAt {t : RawTree} (hwf : wfb t = true) {l : Level} (hl : l
   obtain ⟨a, ha⟩ := mem_zip_snd l t.hierarchy none hl
   have := wfb_levelOK hwf (pl := a) (cl := l) ha
   simp only [levelOK, Bool.and_eq_true, Bool.not_eq_true'] at this
-  exact hasDup_false_nodup _ this.1
+  exact hasDup_false_nodup _ this.1.1
 
 theorem lookup_of_mem_nodup {β} : ∀ (m : List (Nat × β)) (k : Nat) (v : β),
     (m.map (·.1)).Nodup → (k, v) ∈ m → m.lookup k = some v
@@ -1164,6 +1165,251 @@ theorem mapPipeline_spec {κ} (t0 t : RawTree) (cfg : Config) (vote : Oracle κ)
     rw [this]
     exact map_cellId_zipWith t vote ids cells hlen
   rw [reorderBlob_perm ids _ (recs.map (markDirect t.hierarchy)) (hperm.map _) hids hnd]
+
+/-! ### `backfill_assignments` -/
+
+/-- `zip(xs[:-1], xs[1:])` -/
+def pairsOf (xs : List Level) : List (Level × Level) := xs.zip xs.tail
+
+theorem lookup_append_single {β} (m : List (Nat × β)) (k p : Nat) (v : β) :
+    (m ++ [(p, v)]).lookup k = match m.lookup k with
+      | some x => some x
+      | none => if k == p then some v else none := by
+  induction m with
+  | nil => simp [List.lookup]; split <;> simp_all
+  | cons a m ih =>
+    obtain ⟨k', v'⟩ := a
+    simp only [List.cons_append, List.lookup]
+    split
+    · rfl
+    · exact ih
+
+/-- what `backfill_assignments` writes at a missing level -/
+def inferred (e : Entry) (p : Node) : Entry :=
+  { e with assignment := p, ru := none, direct := some false }
+
+/-- the core of `backfill_assignments` for one cell, walking up the reversed
+hierarchy `xs`: if the present levels agree with a path `path` of the stored
+tree, every level of `xs` ends up bound to the node of that path; present
+levels are untouched; added levels are flagged and copy the level below. -/
+theorem backfillPairs_spec (tMeta : RawTree) (path : Level → Node) :
+    ∀ (xs : List Level) (r : Record), xs.Nodup →
+      (∀ cp ∈ pairsOf xs, tMeta.childToParent cp.1 (path cp.1) = some (path cp.2)) →
+      (∀ l e, r.levels.lookup l = some e → e.assignment = path l) →
+      (∀ l, xs.head? = some l → (r.levels.lookup l).isSome) →
+      ∃ r', backfillPairs tMeta (pairsOf xs) r = .ok r' ∧ r'.cellId = r.cellId ∧
+        (∀ l ∈ xs, ∃ e, r'.levels.lookup l = some e ∧ e.assignment = path l) ∧
+        (∀ l e, r.levels.lookup l = some e → r'.levels.lookup l = some e) ∧
+        (∀ l, l ∉ xs → r'.levels.lookup l = r.levels.lookup l) ∧
+        (∀ cp ∈ pairsOf xs, r.levels.lookup cp.2 = none →
+          ∃ ec, r'.levels.lookup cp.1 = some ec ∧
+            r'.levels.lookup cp.2 = some (inferred ec (path cp.2)))
+  | [], r, _, _, _, _ => ⟨r, rfl, rfl, by simp, fun _ _ h => h, fun _ _ => rfl, by simp [pairsOf]⟩
+  | [c], r, _, _, hagree, hhead => by
+    refine ⟨r, rfl, rfl, ?_, fun _ _ h => h, fun _ _ => rfl, by simp [pairsOf]⟩
+    intro l hl
+    simp only [List.mem_singleton] at hl
+    subst hl
+    have := hhead l rfl
+    cases h : r.levels.lookup l with
+    | none => simp [h] at this
+    | some e => exact ⟨e, rfl, hagree l e h⟩
+  | c :: p :: rest, r, hnd, hlink, hagree, hhead => by
+    have hpairs : pairsOf (c :: p :: rest) = (c, p) :: pairsOf (p :: rest) := by
+      simp [pairsOf]
+    have hc := hhead c rfl
+    have hcp := hlink (c, p) (by rw [hpairs]; simp)
+    -- the (c, p) iteration
+    have step : ∃ r1, backfillOne tMeta c p r = .ok r1 ∧ r1.cellId = r.cellId ∧
+        (∀ l e, r1.levels.lookup l = some e → e.assignment = path l) ∧
+        (r1.levels.lookup p).isSome ∧
+        (∀ l e, r.levels.lookup l = some e → r1.levels.lookup l = some e) ∧
+        (∀ l, l ≠ p → r1.levels.lookup l = r.levels.lookup l) ∧
+        (r.levels.lookup p = none → ∃ ec, r.levels.lookup c = some ec ∧
+          r1.levels.lookup p = some (inferred ec (path p))) := by
+      unfold backfillOne
+      cases hp : r.levels.lookup p with
+      | some ep =>
+        refine ⟨r, by simp, rfl, hagree, by simp [hp], fun _ _ h => h, fun _ _ => rfl, ?_⟩
+        intro h; cases h
+      | none =>
+        cases hce : r.levels.lookup c with
+        | none => simp [hce] at hc
+        | some e =>
+          have ha := hagree c e hce
+          simp only [Option.isSome_none, Bool.false_eq_true, if_false, ha, hcp]
+          refine ⟨_, rfl, rfl, ?_, ?_, ?_, ?_, ?_⟩
+          · intro l e' hl
+            rw [lookup_append_single] at hl
+            cases hl0 : r.levels.lookup l with
+            | some x =>
+              rw [hl0] at hl; cases hl; exact hagree l _ hl0
+            | none =>
+              rw [hl0] at hl
+              simp only at hl
+              split at hl
+              · rename_i hlp
+                have : l = p := by simpa using hlp
+                subst this; cases hl; rfl
+              · cases hl
+          · rw [lookup_append_single, hp]; simp
+          · intro l e' hl
+            rw [lookup_append_single, hl]
+          · intro l hl
+            rw [lookup_append_single]
+            have : (l == p) = false := by simpa using hl
+            cases r.levels.lookup l <;> simp [this]
+          · intro _
+            refine ⟨e, rfl, ?_⟩
+            rw [lookup_append_single, hp]
+            simp [inferred]
+    obtain ⟨r1, h1, hid1, hagree1, hp1, hkeep1, hother1, hinf1⟩ := step
+    obtain ⟨r', h2, hid2, hall2, hkeep2, hother2, hinf2⟩ :=
+      backfillPairs_spec tMeta path (p :: rest) r1 (List.nodup_cons.mp hnd).2
+        (fun cp hm => hlink cp (by rw [hpairs]; exact List.mem_cons_of_mem _ hm))
+        hagree1 (fun l hl => by simp at hl; subst hl; exact hp1)
+    refine ⟨r', by rw [hpairs]; simp only [backfillPairs, h1, h2], by rw [hid2, hid1], ?_, ?_, ?_, ?_⟩
+    · intro l hl
+      rcases List.mem_cons.mp hl with h | h
+      · subst h
+        cases hce : r.levels.lookup l with
+        | none => simp [hce] at hc
+        | some e => exact ⟨e, hkeep2 l e (hkeep1 l e hce), hagree l e hce⟩
+      · exact hall2 l h
+    · intro l e h; exact hkeep2 l e (hkeep1 l e h)
+    · intro l hl
+      have h1' : l ∉ p :: rest := fun h => hl (List.mem_cons_of_mem _ h)
+      have h2' : l ≠ p := fun h => h1' (by simp [h])
+      rw [hother2 l h1', hother1 l h2']
+    · intro cp hm hnone
+      rw [hpairs] at hm
+      rcases List.mem_cons.mp hm with h | h
+      · subst h
+        obtain ⟨ec, hec, hpe⟩ := hinf1 hnone
+        exact ⟨ec, hkeep2 _ _ (hkeep1 _ _ hec), hkeep2 _ _ hpe⟩
+      · -- cp.2 is not p (p is bound in r1 only if it was in r or just added); use IH
+        have hcp2 : cp.2 ≠ p := by
+          intro he
+          have hm2 : cp.2 ∈ rest := by
+            have : cp ∈ (p :: rest).zip rest := h
+            exact (List.of_mem_zip this).2
+          rw [he] at hm2
+          exact (List.nodup_cons.mp (List.nodup_cons.mp hnd).2).1 hm2
+        have hn1 : r1.levels.lookup cp.2 = none := by rw [hother1 _ hcp2]; exact hnone
+        exact hinf2 cp h hn1
+
+theorem backfillOne_cellId (tMeta : RawTree) (cl pl : Level) (r r' : Record)
+    (h : backfillOne tMeta cl pl r = .ok r') : r'.cellId = r.cellId := by
+  unfold backfillOne at h
+  split at h
+  · cases h; rfl
+  · split at h
+    · cases h; rfl
+    · split at h
+      · cases h
+      · cases h; rfl
+
+theorem backfillPairs_cellId (tMeta : RawTree) : ∀ (ps : List (Level × Level)) (r r' : Record),
+    backfillPairs tMeta ps r = .ok r' → r'.cellId = r.cellId
+  | [], r, r', h => by simp [backfillPairs] at h; cases h; rfl
+  | (cl, pl) :: rest, r, r', h => by
+    simp only [backfillPairs] at h
+    split at h
+    · cases h
+    · rename_i r1 h1
+      rw [backfillPairs_cellId tMeta rest r1 r' h, backfillOne_cellId tMeta cl pl r r1 h1]
+
+/-- the levels computed by `backfill_assignments` do not depend on the cell id -/
+theorem backfillOne_setId (tMeta : RawTree) (cl pl : Level) (r : Record) (x : CellId) :
+    backfillOne tMeta cl pl { r with cellId := x } =
+      (backfillOne tMeta cl pl r).map (fun r' => { r' with cellId := x }) := by
+  unfold backfillOne
+  simp only
+  split
+  · rfl
+  · split
+    · rfl
+    · split <;> rfl
+
+theorem backfillPairs_setId (tMeta : RawTree) : ∀ (ps : List (Level × Level)) (r : Record)
+    (x : CellId), backfillPairs tMeta ps { r with cellId := x } =
+      (backfillPairs tMeta ps r).map (fun r' => { r' with cellId := x })
+  | [], _, _ => rfl
+  | (cl, pl) :: rest, r, x => by
+    simp only [backfillPairs, backfillOne_setId]
+    cases h : backfillOne tMeta cl pl r with
+    | error e => rfl
+    | ok r1 =>
+      simp only [Except.map]
+      exact backfillPairs_setId tMeta rest r1 x
+
+theorem mapM_key_preserved {α ε} (key : α → Nat) (f : α → Except ε α)
+    (hf : ∀ r r', f r = .ok r' → key r' = key r) : ∀ (rs out : List α),
+    rs.mapM f = .ok out → out.map key = rs.map key
+  | [], out, h => by simp at h; cases h; rfl
+  | r :: rs, out, h => by
+    simp only [List.mapM_cons] at h
+    cases h1 : f r with
+    | error e => rw [h1] at h; cases h
+    | ok r' =>
+      cases h2 : rs.mapM f with
+      | error e => rw [h1, h2] at h; cases h
+      | ok out' =>
+        rw [h1, h2] at h
+        cases h
+        simp only [List.map_cons, hf r r' h1, mapM_key_preserved key f hf rs out' h2]
+
+theorem mapM_getElem {α β ε} (f : α → Except ε β) : ∀ (rs : List α) (out : List β),
+    rs.mapM f = .ok out → ∀ (i : Nat) r, rs[i]? = some r → ∃ o, out[i]? = some o ∧ f r = .ok o
+  | [], out, h, i, r, hr => by simp at hr
+  | a :: rs, out, h, i, r, hr => by
+    simp only [List.mapM_cons] at h
+    cases h1 : f a with
+    | error e => rw [h1] at h; cases h
+    | ok a' =>
+      cases h2 : rs.mapM f with
+      | error e => rw [h1, h2] at h; cases h
+      | ok out' =>
+        rw [h1, h2] at h
+        cases h
+        cases i with
+        | zero => simp at hr; subst hr; exact ⟨a', by simp, h1⟩
+        | succ j =>
+          obtain ⟨o, ho, hfo⟩ := mapM_getElem f rs out' h2 j r (by simpa using hr)
+          exact ⟨o, by simpa using ho, hfo⟩
+
+/-- the finished record of one cell: flags, then `backfill_assignments` with
+the tree as stored -/
+def cellResult {κ} (t0 t : RawTree) (vote : Oracle κ) (id : CellId) (c : κ) : Except Err Record :=
+  backfillPairs t0.dropCells (pairsOf t0.dropCells.hierarchy.reverse)
+    (markDirect t.hierarchy (mkRecord t vote id c))
+
+theorem getElem?_zipWith_some {α β γ} (f : α → β → γ) : ∀ (as : List α) (bs : List β) (i : Nat) a b,
+    as[i]? = some a → bs[i]? = some b → (List.zipWith f as bs)[i]? = some (f a b)
+  | [], _, _, _, _, h, _ => by simp at h
+  | _ :: _, [], _, _, _, _, h => by simp at h
+  | a0 :: as, b0 :: bs, 0, a, b, ha, hb => by
+    simp at ha hb; subst ha; subst hb; simp
+  | a0 :: as, b0 :: bs, i+1, a, b, ha, hb => by
+    simpa using getElem?_zipWith_some f as bs i a b (by simpa using ha) (by simpa using hb)
+
+/-- position `i` of the output is the finished record of cell `i` -/
+theorem mapPipeline_getElem {κ} (t0 t : RawTree) (cfg : Config) (vote : Oracle κ)
+    (ids : List CellId) (cells : List κ) (order : List Nat)
+    (hrun : runTree t0 cfg = .ok t) (hwf : wfb t = true) (hv : VoteOK t vote)
+    (hlen : ids.length = cells.length) (hnd : ids.Nodup)
+    (hproc : 1 ≤ cfg.nProc) (hcs : 1 ≤ cfg.chunkSize)
+    (horder : order.Perm (List.range
+      (chunks cells.length (effChunk cells.length cfg.nProc cfg.chunkSize)).length))
+    (out : List Record) (hout : mapPipeline t0 cfg vote ids cells order = .ok out)
+    (i : Nat) (id : CellId) (c : κ) (hid : ids[i]? = some id) (hc : cells[i]? = some c) :
+    ∃ o, out[i]? = some o ∧ cellResult t0 t vote id c = .ok o := by
+  rw [mapPipeline_spec t0 t cfg vote ids cells order hrun hwf hv hlen hnd hproc hcs horder] at hout
+  unfold backfill at hout
+  have hget : ((List.zipWith (mkRecord t vote) ids cells).map (markDirect t.hierarchy))[i]? =
+      some (markDirect t.hierarchy (mkRecord t vote id c)) := by
+    rw [List.getElem?_map, getElem?_zipWith_some _ ids cells i id c hid hc]; rfl
+  exact mapM_getElem _ _ out hout i _ hget
 
 end LevelLoop
 end CTM
